@@ -599,18 +599,21 @@ pub fn liquidate_reply(
         );
     }
 
-    msgs.append(
-        &mut withdraw(
-            deps.as_ref(),
-            env.clone(),
-            &mut state,
-            &liquidator,
-            config.eligible_collateral,
-            liquidation_fee,
-            pre_paid_shortfall,
-        )
-        .unwrap(),
-    );
+    // a fee that rounds down to zero is not transferred (token transfers of zero are rejected)
+    if !liquidation_fee.is_zero() {
+        msgs.append(
+            &mut withdraw(
+                deps.as_ref(),
+                env.clone(),
+                &mut state,
+                &liquidator,
+                config.eligible_collateral,
+                liquidation_fee,
+                pre_paid_shortfall,
+            )
+            .unwrap(),
+        );
+    }
 
     store_state(deps.storage, &state)?;
 
